@@ -427,8 +427,17 @@ def share_obligations(ctx: Context, module, rules: set, as_rule: str, only=None)
                 raise
         cache[name] = sub
     n = 0
+    from ..report import load_known, match_known
+    known = cache.setdefault('__known__', load_known())
     for ob in sub.obligations:
         if ob.rule in rules and (only is None or only(ob)):
+            if not ob.ok and match_known(sub.prop, ob, known) is not None:
+                # a recorded finding is reported by the property that owns the rule (and listed there in known_findings.json);
+                # the adopting property does not repeat it
+                note = f"{as_rule}: a recorded finding of {sub.prop} {ob.rule} ({ob.function}) is reported under {sub.prop}, not adopted here"
+                if note not in ctx.notes:
+                    ctx.notes.append(note)
+                continue
             ctx.obligations.append(type(ob)(as_rule, f"[{ob.rule}] {ob.text}", ob.site, ob.function, ob.construct, ob.ok, ob.detail))
             ctx.instances[as_rule] = ctx.instances.get(as_rule, 0) + 1
             n += 1
